@@ -1,6 +1,7 @@
 import Driver.Util
 import Driver.StorageCodec
 import Driver.C01
+import Hv.Storage.Listing
 
 /-! Driver for domain C29: `readSwampName` and the explorer's per-file decision (`scanListed`) of the
     model on the real files' bytes; `create` is `createFileCfg`.  A reply is flagged when the model's
@@ -13,7 +14,7 @@ structure DS where
   files : List Bytes := []     -- newest first
 
 def engineKind (k : String) : Bool :=
-  k == "v3" || k == "v3app" || k == "v3open" || k == "v2" || k == "v2app" || k == "v2resv"
+  k == "v3" || k == "v3app" || k == "v3open" || k == "v2" || k == "v2app" || k == "v2resv" || k == "v3cmp" || k == "v2cmp" || k == "v3torn"
 
 def insertSorted (x : Bytes) : List Bytes → List Bytes
   | [] => [x]
@@ -50,13 +51,13 @@ def step (d : DS) (line : String) : DS × String :=
         else "\t#F:C29-name-mismatch"
       ({ d with files := file :: d.files }, line ++ flag)
     | _, _ => (d, "bad-op")
+  | ["wipe"] => ({ d with files := [] }, "ok")
+  | ["rmlast"] => ({ d with files := d.files.drop 1 }, "ok")
   | ["scan"] =>
     let fs := d.files
     let scanned := (fs.filter fun f => match openReader f with | .ok _ => true | .error _ => false).length
-    let names := fs.foldl (fun acc f =>
-      match scanListed d.cfg snappyDecoder crc32 f with
-      | some n => insertSorted n acc
-      | none => acc) []
+    -- the model's index over the directory (a set); sorted only for printing
+    let names := (listing d.cfg snappyDecoder crc32 fs).mergeSort bytesLe
     let ns := if names.isEmpty then "none" else ",".intercalate (names.map hex)
     (d, s!"listing total={fs.length} scanned={scanned} errors={fs.length - scanned} names={ns}")
   | _ => (d, "bad-op")
